@@ -64,27 +64,12 @@ Definition root_ok (c : case) (r cur : string) : bool :=
 Definition loads_idx (lg : list oev) : list (nat * string) :=
   concat (map (fun p => match snd p with OLoad n => [(fst p, n)] | _ => [] end) (combine (seq 0 (length lg)) lg)).
 
-Definition env_ok (W : world) (n : string) : bool :=
-  match alookup n (w_envs W) with Some (LoadOk _) => true | _ => false end.
-
-(* the load with call number [i] of environment [n] fails: the loader does not serve a parsable definition, or it
-   is the faulted call *)
-Definition load_failed (W : world) (i : nat) (n : string) : bool :=
-  negb (env_ok W n) || match w_fault W with Some k => N.eqb k (N.of_nat i) | None => false end.
-
-(* "each imported environment is loaded at most once per evaluation": ALL loads, successful or not *)
+(* "each imported environment is loaded at most once per evaluation": ALL loads, successful or not.  There is no
+   excuse: eval.evaluateImport remembers a failed import (the repair of the former known finding C05-failed-load-retried),
+   so a second load of a name - after a failed OR a successful first load - is a violation. *)
 Definition spec_load (lg : list oev) : bool :=
   let names := map snd (loads_idx lg) in
   existsb (fun n => negb (Nat.eqb (count_str n names) 1)) names.
-
-(* known finding C05-failed-load-retried: eval.evaluateImport returns before registering the name in e.imports on all
-   three error exits, so a FAILED load is repeated by the next listing of the same name.  The class excuses exactly
-   that: every load that is followed by another load of the same name was a failed one (a load after a successful
-   load of the same name is outside the class). *)
-Definition loads_excused (W : world) (lg : list oev) : bool :=
-  let ls := loads_idx lg in
-  forallb (fun p => negb (existsb (fun q => Nat.ltb (fst p) (fst q) && String.eqb (snd p) (snd q)) ls)
-                    || load_failed W (fst p) (snd p)) ls.
 
 (* every clause of the property except the load clause *)
 Definition spec_other (c : case) (lg : list oev) : bool :=
@@ -118,14 +103,8 @@ Definition spec_fail (c : case) : bool :=
 Definition mismatch (c : case) : bool :=
   match compare_run (c_world c) (c_name c) (c_def c) (c_obs c) with CmpDiff => true | _ => false end.
 
-(* the class: ONLY the load clause fails, and it fails only by repeating failed loads *)
-Definition known (c : case) : bool :=
-  match c_obs c with
-  | IObs _ _ lg => negb (spec_other c lg) && spec_load lg && loads_excused (c_world c) lg
-  | _ => false
-  end.
-(* a failure counts as the RECORDED finding only when the model - which reproduces it (Proofs/EvalLogLoad.v,
-   load_at_most_once_refuted) - predicts exactly what the implementation did on this case *)
+(* no known class (C05-failed-load-retried is fixed; Properties/C05.v C05_load_at_most_once holds as stated) *)
+Definition known (c : case) : bool := false.
 Definition spec_fail_new (c : case) : bool := spec_fail c && negb (known c && negb (mismatch c)).
 Definition spec_fail_known (c : case) : bool := spec_fail c && known c && negb (mismatch c).
 Definition nontrivial (c : case) : bool :=
